@@ -199,7 +199,8 @@ def gen_nego(rng, tier):
         e["period"] = jv_int(5000)
         specials.append({"agent": [5, 7, 9], "ehc": e, "sehc": {"period": jv_abs(), "limit": jv_abs()}, "group": "presence"})
     # small negative agent values (as uint64) with a short period: the scaled value truncates to 0
-    for ag in (2 ** 64 - 1, 2 ** 64 - 11, 2 ** 64 - 12, 2 ** 64 - 13, 2 ** 63 + 5, 11, 12, 13, 239999, 240000, 240001):
+    # (fix b82e6ce: 2^64-1 .. 2^64-11 are -1 .. -11 as an int, scale to 0 with a 5 s period and must be ignored)
+    for ag in [2 ** 64 - d for d in range(1, 14)] + [2 ** 63 + 5, 11, 12, 13, 239999, 240000, 240001]:
         for per in (5000, 60000, 120000):
             e = default_ehc()
             e["period"], e["log"] = jv_int(per), jv_int(rng.choice([20000, 10000, 1]))
